@@ -22,7 +22,7 @@ P = {
          "trusted: simulator scheduler and quiescence detection; livelock = 1500 scheduler steps without input progress, where progress is the user's bytes being read (the main loop reading the answers to its own cursor queries is not); more than 2500 reads after end of input without returning = polling a dead terminal; CPU watchdog for loops that never reach a simulator point; known findings are named by the panicking frame / blocked tasks",
          "scenario = (swarm environment, key script by command name + raw bytes, schedule class S1/S2/S3, fault plan); distinct = distinct hash of the sequence of abstract editor states (main keymap, local keymap, buffer shape, cursor class, last command, read kind) at input waits; non-trivial = more than 6 scheduler steps", [], "§6 C01"),
  "C02": (True, "exploration", "deterministic simulation: typed text delivered under slow-typist, cut-at-waits (incl. mid-UTF-8, paste) and type-ahead schedules; identity oracle",
-         "Each generated string is typed through the simulated tty under three schedule classes and the returned line is compared for equality, with the buffer checked against the typed prefix at every input wait.",
+         "Each generated string is typed through the simulated tty under three schedule classes and the returned line is compared for equality, with the buffer checked against the typed prefix at every input wait. A separate family puts bytes into the pty's own input queue before the call (keys typed while the application was busy) and counts them (FIONREAD) at the first input wait and after the return: switching the terminal modes must not throw them away.",
          "trusted: generator only types self-inserting printable runes; type-ahead (S2) failures of plain ASCII text are violations here; for non-ASCII text they are attributed to C05 (a multi-byte character cut by the end of a read is a listed C05 finding)",
          "scenario = (string over ASCII/Latin-1/BMP/astral classes, mode, meta variables, chunking seed); distinct = distinct abstract-state sequence hash; non-trivial = non-empty text", [], "§6 C02"),
  "C05": (True, "exploration", "deterministic simulation: one byte script replayed under a canonical and N seeded delivery schedules (cuts, report/type-ahead fusion); outcome equality",
@@ -53,7 +53,7 @@ P.update({
     "trusted: the reference matcher (props/c03.go, ~120 lines); tables live under a lead byte the default tables do not use; sessions whose keymap changed are not judged; batches: prefix-free tables typed in main keymaps and inside the vi visual keymap (named in full), overlapping tables without macros in emacs (named in full), the rest named by keymap (known findings)",
     "scenario = (keymap, bind table with forced prefix overlaps and macros, input string, delivery schedule); distinct = distinct abstract-state sequence hash; non-trivial = the reference produced a judgement", "§6 C03"),
  "C04": _p("exploration", "deterministic simulation: VT100 cell-grid emulator fed with the library's output and answering its cursor queries; reference layout anchored at the cell the terminal itself reported",
-    "At every input wait the emulator grid is compared with a reference layout of prompt+buffer (wrap at the width, wide glyphs never straddling the margin, continuation rows, no remnants) and the cursor cell; geometry, prompts, start row (scrolling) and previous frames are swarm parameters.",
+    "At every input wait the emulator grid is compared with a reference layout of prompt+buffer (wrap at the width, wide glyphs never straddling the margin, continuation rows, no remnants) and the cursor cell; geometry, prompts, start row (scrolling) and previous frames are swarm parameters. With a prompt of several lines its upper lines must stand untouched directly above the input area at every judged frame; a family of two calls on one Shell with the terminal resized between them (no call active) checks that the second call lays out for the width the terminal has then.",
     "trusted: the terminal model incl. pending-wrap/erase-at-margin semantics of xterm; independent width table restricted to characters on which it agrees with the library's by construction; tabs judged by glyph order only",
     "scenario = (geometry, prompt shape, history lines of targeted shapes, paint/edit script); distinct = distinct abstract-state sequence hash; non-trivial = at least one frame judged; frames_judged/unjudged counted", "§6 C04"),
  "C07": _p("exploration", "deterministic simulation of undo/redo sessions; monitor over the recorded per-line snapshot history",
@@ -101,7 +101,7 @@ P.update({
     "trusted: extraction of dump lines from the raw stream (CSI sequences stripped, lines starting with a quote or with 'set ')",
     "run = (rune sequence | configuration + dump command | recorded macro); distinct = distinct payload hash; every run is non-trivial; indexes 0..255 enumerate the single runes", "§6 C19"),
  "C20": _p("exploration", "deterministic simulation with injected SIGWINCH / resize / Printf / PrintTransientf disturbances pinned to the n-th occurrence of named scheduling points, one-runner scheduler choosing every interleaving from the seed; reference = undisturbed run",
-    "The resize watcher and application Printf callers are real goroutines released one at a time at guarded yield points; each disturbance is injected when a named task reaches a named point (main loop top, during refresh, during the cursor query, at the report hand-off, while waiting, ...). Judged: no panic, no deadlock or stuck task, same (line, err) as the undisturbed run, consistent screen at the next clean input wait. The quick tier includes a systematic sweep of single disturbances over (site x kind x occurrence).",
+    "The resize watcher and application Printf callers are real goroutines released one at a time at guarded yield points; each disturbance is injected when a named task reaches a named point (main loop top, during refresh, during the cursor query, at the report hand-off, while waiting, ...). Judged: no panic, no deadlock or stuck task, same (line, err) as the undisturbed run, consistent screen at the next clean input wait, and (one Printf/PrintTransientf, messages of one to three rows or running past the margin, prompts of one to three lines) the printed message and the upper prompt lines standing intact directly above the input area at the first redisplay a key causes, the undisturbed run vouching for the script itself. The quick tier includes a systematic sweep of single disturbances over (site x kind x occurrence).",
     "trusted: yield points are where interleaving matters (DESIGN.md §3); between two yield points a task runs alone; one event (resize or Printf, also with a key typed while its report is in flight) while Readline waits for input is named in full, everything beyond is named by the window in which it lands (known findings)",
     "scenario = (key script, disturbance plan, enabled yield-site subset, schedule seed); distinct = distinct interleaving/abstract-state hash; non-trivial = at least one disturbance fired", "§6 C20"),
 })
